@@ -13,6 +13,13 @@ must see e, and must classify it retryable exactly when the origin's own `ErrorI
 KEYS: the KV / lease methods carry a key / prefix / lease name chosen by the caller (6th token: `a<n>` = n ASCII bytes,
 `u<n>` = n bytes of UTF-8 with multi-byte and escaped characters; `-` for methods without one). The statement does not
 mention the key: the verdicts above are demanded for EVERY key, of any length, and say so in the SPEC reason.
+LIVE lines (`live <method> <node state> <scenario> <ttl ns|-> <origin> <origin retryable> <key token>`): the handler's
+local node is a REAL `chord.LocalNode` (active single-node ring / never started / left) over the real in-memory KV
+provider; `<origin>` is what the node ITSELF answered to the request (called directly: a registry variable, `noerror`, or
+`x<hex text>` for any other error), the right-hand side is what the remote caller got for the same request in the same
+state through the real handler. The statement is judged on these lines as it stands: a registry error the node answers
+must be the same error at the caller, with the node's own retryability; any other error must arrive non-retryable.
+The model additionally predicts the node's answer to lease requests (`leaseOutcome`) and the caller's whole view.
 `%w`-wrapped registry errors whose text is CHANGED and fresh errors carrying a registry message are outside the
 reachable domain (no handler returns them): compared with the model only.
 -/
@@ -139,7 +146,65 @@ def step (_ : Unit) (toks : List String) (rhs : String) : Unit × Verdict :=
         else if render got x key ≠ rhs then ((), .diff (render got x key))
         else ((), .ok)
     | _, _, _ => ((), .bad "rpc args")
+  | ["live", method, ns, sc, ttl, oid, oretry, ktok] =>
+    let origin : Option (Option GoErr) :=
+      if oid = "noerror" then some none
+      else match entryOf oid with
+        | some e => some (some (.reg e))
+        | none => if oid.startsWith "x" then (hexToAscii (oid.drop 1).toString).map (fun m => some (.opaque m)) else none
+    let ttlv : Option (Option Int) := if ttl = "-" then some none else ttl.toInt?.map some
+    match origin, parseBool oretry, keyOf ktok, ttlv with
+    | some origin, some oretry, some key, some ttlv =>
+      let how := howOf Gen.C14.handlers method
+      if (how == "WrapErrorKV") ≠ (ktok ≠ "-") then ((), .bad "a key token goes with the WrapErrorKV handlers exactly") else
+      let id := if rhs = "noerror" then "no error at all" else field rhs "id"
+      let retry := if rhs = "noerror" then "-" else field rhs "retry"
+      let what := s!"{method} on a real node ({ns}, lease/prefix {sc}" ++
+        (match ttlv with | some t => s!", ttl {t} ns" | none => "") ++ ")" ++ keyDesc ktok
+      let sp : Option String :=
+        match origin with
+        | some (.reg e) =>
+          if id ≠ e.name then
+            some s!"{what}: the node itself answers {e.name}; the remote caller does not recognise it as the same error (caller sees {id})"
+          else if retry ≠ boolStr oretry then
+            some s!"{what}: {e.name} retryable at the origin = {oretry}, at the caller = {retry}"
+          else none
+        | some _ => if retry = "true" then some s!"{what}: an unknown error became retryable at the caller" else none
+        | none => none
+      match sp with
+      | some w => ((), .spec w)
+      | none =>
+        -- the model: the node's answer to a lease request, then the handler (adds nothing) and the error path
+        let op : Option LeaseOp := match method with
+          | "Acquire" => some .acquire | "Renew" => some .renew | "Release" => some .release | _ => none
+        let st : Option LeaseSt := match sc with
+          | "free" => some .free | "held" => some .heldOther | "heldother" => some .heldOther
+          | "heldmine" => some .heldMine | "lapsed" => some .lapsed | _ => none
+        let predicted : Option (Option GoErr) :=
+          if ns = "active" then
+            match op, st, ttlv with
+            | some .release, some st, _ => some (leaseOutcome known .release 0 st)
+            | some op, some st, some t => some (leaseOutcome known op t st)
+            | _, _, _ => none
+          else none
+        let descr (o : Option GoErr) : String := match o with
+          | none => "noerror" | some (.reg e) => e.name | some x => x.msg
+        match predicted with
+        | some p =>
+          if p ≠ origin then ((), .diff s!"model: the node answers {descr p}") else
+          judge how key origin oretry
+        | none => judge how key origin oretry
+    | _, _, _, _ => ((), .bad "live args")
   | _ => ((), .bad "unknown op")
+where
+  judge (how key : String) (origin : Option GoErr) (oretry : Bool) : Unit × Verdict :=
+    let want := match callerSees known mapped how key origin, origin with
+      | some got, some x => render got x key
+      | _, _ => "noerror"
+    let r0 := match origin with | some x => retryable known x | none => false
+    if r0 ≠ oretry then ((), .diff s!"model: retryable at the origin = {r0}")
+    else if want ≠ rhs then ((), .diff want)
+    else ((), .ok)
 
 def main : IO Unit := runLoop () step
 
